@@ -187,26 +187,36 @@ Proof. split; eexists; vm_compute; reflexivity. Qed.
 (* END token-level grammar *)
 
 (* BEGIN lexical level *)
-(* Lexical level (agent lex-grammar): the model lexer (Model/Lexer.v = lexer/lexer.go) recognises exactly the lexical
-   grammar of Spec/LuaLex.v - white space, line breaks, short and long comments, long brackets of every level, names
-   versus the 22 keywords, operators / punctuation by longest match, numerals as the reference lexer cuts them, short
-   strings - from the file BYTES (byte order mark and `#` first line included), for every GBK oracle.
-   `LexesTo bs sts`: the bytes split into the tokens sts (kind + lexeme) with the MANUAL's escape sequences;
-   `LexesToWith EscCode`: the same grammar with the escape sequences lexer.go accepts (EscCode, Proofs/LexerGrammarStr.v).
+(* Lexical level (agents lex-grammar, lex-escape): the model lexer (Model/Lexer.v = lexer/lexer.go) recognises exactly the
+   lexical grammar of Spec/LuaLex.v - white space, line breaks, short and long comments, long brackets of every level,
+   names versus the 22 keywords, operators / punctuation by longest match, numerals as the reference lexer cuts them,
+   short strings with the MANUAL's escape sequences - from the file BYTES (byte order mark and `#` first line
+   included), for every GBK oracle.
+   `LexesTo bs sts`: the bytes split into the tokens sts (kind + lexeme) with the manual's escape sequences (EscLua).
    `tok_ok t s`: the model token t has the kind of s, and its text unless it is a string (the model keeps the
    decoded value of a string).  "No lexical error" = no token of lex_all carries an error (flat_map lerrs ts = []).
    Numerals: the CUT is specified here (read_numeral of Lua 5.3 + the LuaJIT suffix letters); whether the text that
-   was cut is a numeral is decided on the token (C03_number_ok_token / num_ok in Chunk), as in the reference lexer. *)
+   was cut is a numeral is decided on the token (C03_number_ok_token / num_ok in Chunk), as in the reference lexer.
+
+   Two variants of the code are modelled under the flag fx_escape (Model/Lexer.v, class FxEscape, an implicit argument):
+   `lex_all gbk_runes bs` = `lex_all (fx := fx_deployed)` = the code in /repo, with readEscapeSequence REPAIRED
+   (fx_escape = true: `\x` without two hex digits, a decimal escape above 255, a malformed / too large `\u{...}` and any
+   other character after a backslash raise "invalid escape sequence"); `lex_all (fx := false)` = the code before that
+   repair, which accepted them silently (the former finding bad_escape, DESIGN 6 row 7). *)
 From LH Require Import Spec.LuaLex.
 From LH Require Import Proofs.LexerGrammarStr Proofs.LexerGrammarMain Proofs.LexerGrammarEsc Proofs.LexerGrammarWitness
   Proofs.LexerGrammarChunk.
+
+(* the drivers and every other property use the repaired variant *)
+Example C03_deployed_is_repaired : fx_deployed = true.
+Proof. reflexivity. Qed.
 
 (* valid text is never flagged at the lexical level, and is lexed to its own tokens *)
 Theorem C03_lex_complete : forall gbk_runes bs sts,
   LexesTo bs sts ->
   exists body eof, lex_all gbk_runes bs = Ok (body ++ [eof]) /\ Forall2 tok_ok body sts /\
                    tk (lt eof) = TkEOF /\ flat_map lerrs (body ++ [eof]) = [].
-Proof. exact lex_all_complete. Qed.
+Proof. exact (@lex_all_complete fx_deployed). Qed.
 Print Assumptions C03_lex_complete.
 
 (* ... in the shape of the plan: kinds only *)
@@ -214,50 +224,88 @@ Corollary C03_lex_complete_kinds : forall gbk_runes bs sts,
   LexesTo bs sts ->
   exists ts, lex_all gbk_runes bs = Ok ts /\ map (fun t => tk (lt t)) ts = map sk sts ++ [TkEOF] /\
              flat_map lerrs ts = [].
-Proof. exact lex_all_complete_kinds. Qed.
+Proof. exact (@lex_all_complete_kinds fx_deployed). Qed.
 Print Assumptions C03_lex_complete_kinds.
 
-(* the exact language of the lexer, no guard: no lexical error <-> the bytes are lexically valid with the CODE's
-   escape sequences (both directions; the tokens are the ones of the grammar) *)
-Theorem C03_lex_sound_code : forall gbk_runes bs ts,
+(* NO GUARD (the repaired lexer): no lexical error => the bytes are lexically valid Lua, the tokens are the ones of
+   the grammar; for all bytes, every oracle *)
+Theorem C03_lex_sound : forall gbk_runes bs ts,
   lex_all gbk_runes bs = Ok ts -> flat_map lerrs ts = [] ->
+  exists body eof sts, ts = body ++ [eof] /\ tk (lt eof) = TkEOF /\ LexesTo bs sts /\ Forall2 tok_ok body sts.
+Proof. exact lex_all_sound_fixed. Qed.
+Print Assumptions C03_lex_sound.
+
+(* both directions in one statement: the lexer raises no error exactly on the lexically valid texts *)
+Theorem C03_lex_iff : forall gbk_runes bs,
+  (exists ts, lex_all gbk_runes bs = Ok ts /\ flat_map lerrs ts = []) <-> (exists sts, LexesTo bs sts).
+Proof. exact lex_all_iff_fixed. Qed.
+Print Assumptions C03_lex_iff.
+
+(* the exact language of BOTH variants of the code: no lexical error <-> the bytes are lexically valid with the escape
+   sequences that variant accepts silently (EscFx fx, Proofs/LexerGrammarStr.v: the sequences lexer.go scans - EscCode -
+   restricted, when fx_escape = true, to those that start a legal escape of the manual) *)
+Theorem C03_lex_sound_variant : forall (fx : FxEscape) gbk_runes bs ts,
+  lex_all (fx := fx) gbk_runes bs = Ok ts -> flat_map lerrs ts = [] ->
+  exists body eof sts, ts = body ++ [eof] /\ tk (lt eof) = TkEOF /\ LexesToWith (EscFx fx) bs sts /\
+                       Forall2 tok_ok body sts.
+Proof. exact @lex_all_sound_fx. Qed.
+Print Assumptions C03_lex_sound_variant.
+
+Theorem C03_lex_complete_variant : forall (fx : FxEscape) gbk_runes bs sts,
+  LexesToWith (EscFx fx) bs sts ->
+  exists body eof, lex_all (fx := fx) gbk_runes bs = Ok (body ++ [eof]) /\ Forall2 tok_ok body sts /\
+                   tk (lt eof) = TkEOF /\ flat_map lerrs (body ++ [eof]) = [].
+Proof. exact @lex_all_complete_fx. Qed.
+Print Assumptions C03_lex_complete_variant.
+
+(* the code BEFORE the repair (fx_escape = false): its language was the grammar with the escapes EscCode, a strict
+   superset of the manual's *)
+Theorem C03_lex_sound_code : forall (fx : FxEscape) gbk_runes bs ts,
+  lex_all (fx := fx) gbk_runes bs = Ok ts -> flat_map lerrs ts = [] ->
   exists body eof sts, ts = body ++ [eof] /\ tk (lt eof) = TkEOF /\ LexesToWith EscCode bs sts /\
                        Forall2 tok_ok body sts.
-Proof. exact lex_all_sound_code. Qed.
+Proof. exact @lex_all_sound_code. Qed.
 Print Assumptions C03_lex_sound_code.
 
 Theorem C03_lex_complete_code : forall gbk_runes bs sts,
   LexesToWith EscCode bs sts ->
-  exists body eof, lex_all gbk_runes bs = Ok (body ++ [eof]) /\ Forall2 tok_ok body sts /\
+  exists body eof, lex_all (fx := false) gbk_runes bs = Ok (body ++ [eof]) /\ Forall2 tok_ok body sts /\
                    tk (lt eof) = TkEOF /\ flat_map lerrs (body ++ [eof]) = [].
 Proof. exact lex_all_complete_code. Qed.
 Print Assumptions C03_lex_complete_code.
 
-(* the manual's escapes are among the code's (layer "strings", spec level) and conversely under the guard *)
+(* the manual's escapes are among the code's old ones (layer "strings", spec level) *)
 Theorem C03_lex_manual_sub_code : forall bs sts, LexesTo bs sts -> LexesToWith EscCode bs sts.
 Proof. exact lexes_lua_code. Qed.
 Print Assumptions C03_lex_manual_sub_code.
 
-(* no lexical error + every unescaped backslash of the text starts a legal escape => lexically valid Lua.
-   no_bad_escape is context free (it also constrains backslashes in comments and long strings): a sufficient guard *)
-Theorem C03_lex_sound_guarded : forall gbk_runes bs ts,
-  lex_all gbk_runes bs = Ok ts -> flat_map lerrs ts = [] -> no_bad_escape bs = true ->
+(* what could be said BEFORE the repair (holds for both variants): no lexical error + every unescaped backslash of the
+   text starts a legal escape => lexically valid Lua.  no_bad_escape is context free (it also constrains backslashes in
+   comments and long strings): a sufficient guard *)
+Theorem C03_lex_sound_guarded : forall (fx : FxEscape) gbk_runes bs ts,
+  lex_all (fx := fx) gbk_runes bs = Ok ts -> flat_map lerrs ts = [] -> no_bad_escape bs = true ->
   exists body eof sts, ts = body ++ [eof] /\ tk (lt eof) = TkEOF /\ LexesTo bs sts /\ Forall2 tok_ok body sts.
-Proof. exact lex_all_sound_guarded. Qed.
+Proof. exact @lex_all_sound_guarded. Qed.
 Print Assumptions C03_lex_sound_guarded.
 
-(* the guard is necessary: "\q" "\xZZ" "\256" "\u{}" "\300" "\u{zz}" "\u{7FFFFFFFF}" are accepted by the code without a
-   lexical error (impl == model), violate the guard, and are NOT lexically valid (spec): DESIGN 6 row 7, the recorded
-   deviation (readEscapeSequence: the `x` and `default` branches never report, `\u` is not handled).
+(* ... and that guard was necessary: "\q" "\xZZ" "\256" "\u{}" "\300" "\u{zz}" "\u{7FFFFFFFF}" were accepted by the code
+   before the repair without a lexical error, violate the guard, and are NOT lexically valid (spec): DESIGN 6 row 7
+   (readEscapeSequence: the `x` and `default` branches never reported, `\u` was not handled).
    Which escapes the SPEC accepts: exactly the manual's (EscLua: \a \b \f \n \r \t \v \\ \dquote \quote, backslash + line
    break, \z, \xXX, \d{1,3} <= 255, \u{X+} < 2^31); nothing of the implementation's leniency is absorbed there. *)
 Theorem C03_escape_refuted : forall gbk_runes,
-  Forall (fun bs => accepted_by_code gbk_runes bs /\ no_bad_escape bs = false /\ ~ exists sts, LexesTo bs sts)
+  Forall (fun bs => accepted_by_code (fx := false) gbk_runes bs /\ no_bad_escape bs = false /\ ~ exists sts, LexesTo bs sts)
          [w_esc_q; w_esc_x; w_esc_256; w_esc_u; w_esc_300; w_esc_uzz; w_esc_ubig].
 Proof. exact escape_witnesses. Qed.
 Print Assumptions C03_escape_refuted.
 
-(* every escape sequence of the manual passes the test the guard applies *)
+(* regression: the repaired code reports each of the seven (one "invalid escape sequence" on the string token) *)
+Example C03_escape_rejected : forall gbk_runes,
+  Forall (fun bs => exists ts, lex_all gbk_runes bs = Ok ts /\ flat_map lerrs ts = [LeBadEscape])
+         [w_esc_q; w_esc_x; w_esc_256; w_esc_u; w_esc_300; w_esc_uzz; w_esc_ubig].
+Proof. exact escape_witnesses_rejected. Qed.
+
+(* every escape sequence of the manual passes the test the guard / the repaired code applies *)
 Theorem C03_guard_admits_manual_escapes : forall e r, EscLua e r -> legal_escape (e ++ r) = true.
 Proof. exact esc_lua_legal. Qed.
 Print Assumptions C03_guard_admits_manual_escapes.
@@ -278,8 +326,15 @@ Example C03_numeral_touching_letter_valid :
               map sk sts = [TkIdentifier; TkOpAssign; TkNumber; TkIdentifier; TkOpAssign; TkNumber].
 Proof. exact numeral_touching_letter. Qed.
 
-(* both levels: for a file that satisfies the guard, NO syntax diagnostic <-> the bytes are a lexically valid token
-   sequence and the token list (which agrees with that sequence, tok_ok) is a Chunk.  <- needs no guard. *)
+(* both levels, NO GUARD (the repaired lexer): for every file, NO syntax diagnostic <-> the bytes are a lexically valid
+   token sequence and the token list (which agrees with that sequence, tok_ok) is a Chunk *)
+Theorem C03_bytes_iff : forall classify gbk_runes bs ts r,
+  lex_all gbk_runes bs = Ok ts -> parse_bytes gbk_runes classify bs = Ok r ->
+  (flagged r = false <-> ValidBytes classify bs ts).
+Proof. exact bytes_iff. Qed.
+Print Assumptions C03_bytes_iff.
+
+(* the statement available before the repair, kept *)
 Theorem C03_bytes_iff_guarded : forall classify gbk_runes bs ts r,
   lex_all gbk_runes bs = Ok ts -> parse_bytes gbk_runes classify bs = Ok r -> no_bad_escape bs = true ->
   (flagged r = false <-> ValidBytes classify bs ts).
